@@ -57,6 +57,9 @@ def ser_node(n, reg, dynamic=False):
         return "{% if component_vars.is_filled." + esc + " %}[Y:" + n[1] + "]{% else %}[N:" + n[1] + "]{% endif %}"
     if k == "idecho":
         return "[I{{ cid }}]"
+    if k == "pyecho":
+        # HTML that get_context_data() obtained from <class>.render() (a component tree of its own)
+        return "{{ py_" + n[1] + " }}"
     if k == "injecho":
         return "[inj:" + n[1] + "={{ inj_" + n[1] + " }}]"
     if k == "provide":
@@ -160,15 +163,19 @@ class Built:
     def reg(self, cname):
         return self.names[cname]
 
-    @staticmethod
-    def _make_gcd(spec, cname, fp):
+    def _make_gcd(self, spec, cname, fp):
         data = dict(spec.get("data", {}))
         inject = list(spec.get("inject", []))
+        pyrender = list(spec.get("pyrender", []))
+        built = self
 
         def get_context_data(self, **kwargs):
             if fp is not None:
                 fp.tick("get_context_data", cname)
             d = dict(data)
+            for target in pyrender:
+                # a nested root render in the middle of the enclosing render
+                d["py_" + target] = built.classes[target].render(render_dependencies=False)
             for kk, vv in kwargs.items():
                 d["k_" + kk] = vv
             d["cid"] = self.id
@@ -270,6 +277,15 @@ class ProgGen:
                         spec["inject"].append([key, f"DEF-{key}" if rng.random() < 0.9 else None])
             budget = [rng.randint(2, max(3, self.size // 2))]
             body = self.gen_nodes(budget, depth=0, in_comp=True, in_fill=False, allowed=allowed, loops=[], top=True)
+            if self.flavour in ("roots", "faults") and allowed and rng.random() < 0.25:
+                # get_context_data() renders another class from Python (a component tree of its own, started and
+                # finished in the middle of the enclosing render) and the template prints that HTML once
+                target = rng.choice(allowed)
+                spec["pyrender"] = [target]
+                self.features.add("python-render-inside-get_context_data")
+                places = [body] + [n[2] for n in body if n and n[0] == "elem"]
+                tgt = rng.choice(places)
+                tgt.insert(rng.randint(0, len(tgt)), ["pyecho", target])
             if self.flavour in ("roots",) or rng.random() < 0.0:
                 body = [["idecho"]] + body
             for key, _ in spec["inject"]:
